@@ -1504,6 +1504,56 @@ def run(repo: Repo, R: Report) -> None:
                         continue  # re-raise of the caught exception
                 shown = "/".join(sorted(x or "?" for x in names))
                 R.check(names <= allowed, r_err, RS, f.name, f"raise {shown}", "an undocumented exception class is raised for an invalid run space", n.lineno)
+    # foreign errors of the source parsers: every call that parses source-file content (json.loads / json.load /
+    # yaml.safe_load / yaml.load) sits in a try whose handler turns the parser's own error into the configuration
+    # error; and a csv.DictReader row with more cells than the header (extra cells are collected under the key None)
+    # is rejected, not looked up
+    PARSERS = {"json.loads": {"JSONDecodeError", "ValueError", "Exception"}, "json.load": {"JSONDecodeError", "ValueError", "Exception"},
+               "yaml.safe_load": {"YAMLError", "Exception"}, "yaml.load": {"YAMLError", "Exception"}}
+    for f in [n for q, n in mod.defs.items() if isinstance(n, FuncNode) and "." not in q]:
+        for c in calls_in(f):
+            cn = call_name(c) or ""
+            if cn not in PARSERS:
+                continue
+            converted = False
+            child: ast.AST = c
+            for a in ancestors(c):
+                if a is f:
+                    break
+                if isinstance(a, ast.Try) and any(child is st or any(child is x for x in ast.walk(st)) for st in a.body):
+                    for h in a.handlers:
+                        caught = {_last(dotted_name(t)) for t in (h.type.elts if isinstance(h.type, ast.Tuple) else [h.type])} if h.type is not None else {"Exception"}
+                        if caught & PARSERS[cn] and any(isinstance(r, ast.Raise) and r.exc is not None and _last(dotted_name(r.exc.func if isinstance(r.exc, ast.Call) else r.exc)) in CONFIG_ERRORS for r in ast.walk(h)):
+                            converted = True
+                child = a
+            R.check(converted, r_err, RS, f.name, f"{cn}(...) failure -> configuration error", f"a malformed source file makes `{cn}` raise its own error class, which is not converted into the configuration error here (its sibling parsers are): expansion fails with an undocumented exception and the CLI ends with a traceback and exit 1 instead of the configuration-error exit", c.lineno)
+        readers = [c for c in calls_in(f) if (call_name(c) or "").endswith("DictReader")]
+        for rd in readers:
+            has_restkey = kwarg(rd, "restkey") is not None
+            rd_names = {t.id for a in ast.walk(f) if isinstance(a, (ast.Assign, ast.AnnAssign)) and getattr(a, "value", None) is rd for t in (a.targets if isinstance(a, ast.Assign) else [a.target]) if isinstance(t, ast.Name)}
+            rows = {lp.target.id for lp in ast.walk(f) if isinstance(lp, ast.For) and isinstance(lp.target, ast.Name) and ((isinstance(lp.iter, ast.Name) and lp.iter.id in rd_names) or lp.iter is rd)}
+            keys = set()
+            for lp in ast.walk(f):
+                if isinstance(lp, ast.For):
+                    it = lp.iter
+                    if isinstance(it, ast.Call) and call_attr(it) in ("items", "keys") and dotted_name(it.func.value) in rows:
+                        tg = lp.target.elts[0] if isinstance(lp.target, ast.Tuple) and lp.target.elts else lp.target
+                        if isinstance(tg, ast.Name):
+                            keys.add(tg.id)
+                    elif isinstance(it, ast.Name) and it.id in rows and isinstance(lp.target, ast.Name):
+                        keys.add(lp.target.id)
+
+            def about_surplus(t: ast.AST) -> bool:
+                if not (isinstance(t, ast.Compare) and len(t.ops) == 1):
+                    return False
+                op, a, b = t.ops[0], t.left, t.comparators[0]
+                if isinstance(op, (ast.In, ast.NotIn)) and isinstance(a, ast.Constant) and a.value is None and dotted_name(b) in rows:
+                    return True
+                return isinstance(op, (ast.Is, ast.IsNot, ast.Eq, ast.NotEq)) and isinstance(b, ast.Constant) and b.value is None and dotted_name(a) in keys
+
+            none_tests = [t for t in ast.walk(f) if about_surplus(t)]
+            rejecting = [t for t in none_tests if any(isinstance(a, ast.If) and any(x is t for x in ast.walk(a.test)) and any(isinstance(r, ast.Raise) for st in a.body + a.orelse for r in ast.walk(st)) for a in ancestors(t))]
+            R.check(has_restkey or bool(rejecting), r_err, RS, f.name, "csv row with more cells than the header is rejected", "csv.DictReader stores surplus cells under the key None and nothing tests for it: a row longer than the header ends in KeyError(None) (or a column named None) instead of the configuration error", rd.lineno)
     # the cap value itself comes from the configuration unchanged
     YL = "semantiva/configurations/load_pipeline_from_yaml.py"
     if repo.maybe_func(YL, "_parse_run_space_block") is not None:
